@@ -42,7 +42,7 @@ pub fn generate(rng: &mut Rng, tier: Tier, stats: &mut GenStats) -> Scenario {
     let tree = g.tree(links);
     let model = Model::from_tree(&tree).unwrap();
     let cwd = g.pick_dir(&model, 40);
-    let base = g.pick_dir(&model, 45);
+    let base = g.pick_base(&model, 45, links == LinkMode::Safe);
     let link = if g.rng.chance(1, 2) { Link::ReadTarget } else { Link::ReadFile };
     let deepest = tree.iter().map(|n| depth_of(&n.path)).max().unwrap_or(1);
     let mut w = Walker {
@@ -62,7 +62,7 @@ pub fn generate(rng: &mut Rng, tier: Tier, stats: &mut GenStats) -> Scenario {
             rooted: false,
         };
         for _ in 0..8 {
-            let (e, r) = g.walk_glob(&model, &w.base, 1, true, &mut stats.rejections);
+            let (e, r) = g.walk_glob(&model, &w.base, if model.is_dir_node(&w.base) { 1 } else { 0 }, true, &mut stats.rejections);
             let cand = Walker {
                 source: Source::Glob { expr: e, rooted: r },
                 ..w.clone()
